@@ -37,6 +37,8 @@ func main() {
 	switch os.Args[1] {
 	case "check":
 		os.Exit(cmdCheck(os.Args[2:]))
+	case "matrix":
+		os.Exit(cmdMatrix(os.Args[2:]))
 	case "explain":
 		os.Exit(cmdExplain(os.Args[2:]))
 	case "debug":
@@ -355,4 +357,49 @@ func runVariant(prop, repo string, f checkFunc, edit func(tmp string) string) ma
 	res["fired"] = len(r2.Viol) > 0 || len(r2.Floors) > 0
 	res["rules"] = rules
 	return res
+}
+
+// cmdMatrix runs every registered check (quick) on one tree in one process,
+// sharing the program and the analysis caches, and prints which fire with
+// which rules.  Used by tools/sweep_seeds.sh; writes no evidence.
+func cmdMatrix(args []string) int {
+	fs := flag.NewFlagSet("matrix", flag.ExitOnError)
+	repo := fs.String("repo", "/repo", "repository root")
+	fs.Parse(args)
+	abs, _ := filepath.Abs(*repo)
+	p := loadProgram(abs, "", nil)
+	var props []string
+	for k := range checks {
+		props = append(props, k)
+	}
+	sort.Strings(props)
+	for _, prop := range props {
+		r := newReport(prop, "quick", 0)
+		func() {
+			defer func() {
+				if e := recover(); e != nil {
+					if ae, ok := e.(analysisError); ok {
+						r.violate("UNDECIDED", "anchor / "+ae.msg, "-", ae.msg, nil)
+						return
+					}
+					panic(e)
+				}
+			}()
+			checks[prop](p, r)
+		}()
+		rs := map[string]bool{}
+		for _, v := range r.Viol {
+			rs[v.Rule] = true
+		}
+		if len(r.Floors) > 0 {
+			rs["UNDECIDED"] = true
+		}
+		var rules []string
+		for k := range rs {
+			rules = append(rules, k)
+		}
+		sort.Strings(rules)
+		fmt.Printf("%s %d %s\n", prop, len(rules), strings.Join(rules, ","))
+	}
+	return 0
 }
